@@ -187,25 +187,12 @@ Definition prop_C40 (i o : val) : bool :=
   | _, _ => false
   end.
 
-(* ---------- known finding 1: DATA bytes dropped without returning session window ---------- *)
-Definition leaky_data (c : conn) (ev : val) : bool :=
-  match ev with
-  | VL [VZ 2; VZ id; VZ n; VZ _] =>
-    (0 <? n) && negb (dead c) &&
-    match find_s id (strs c) with
-    | None => true
-    | Some s =>
-      negb (sstate s =? 1) ||
-      (negb (decl s =? -1) && (decl s <? bodyb s + n)) ||
-      ((n <=? zmin (sinflow s) (cinflow c)) && (bclosed s || (INITWIN <? buf s + n)))
-    end
-  | _ => false
-  end.
+(* ---------- known finding 1: unread buffered bytes of a stream that is closed or reset are never
+   returned at session level (dropped DATA frames are refunded since the /repo fix) ---------- *)
 Fixpoint kf_scan (c : conn) (evs : list val) : bool :=
   match evs with
   | [] => false
   | ev :: r =>
-    leaky_data c ev ||
     match step c ev with
     | Some (c', fs, _) =>
       negb (INITWIN - cinflow c' =? total_buf c') || kf_scan c' r   (* a stream closed with unread bytes *)
